@@ -30,4 +30,12 @@ F2 == <<CF(1, "f1", "V50"), CF(2, "g1", "V50"),
         CS(4, "AR-PACKAGES"), CN(20, "AR-PACKAGE", "p"), CS(21, "ELEMENTS"),
         CN(23, "SYSTEM-SIGNAL", "t"), CN(23, "I-SIGNAL", "r"), CS(26, "SYSTEM-SIGNAL-REF"), SR(28, 24),
         CS(2, "AR-PACKAGES")>>
+AF(p, f) == [A0 EXCEPT !.op = "AddToFile", !.p = p, !.f = f]
+RF(p, f) == [A0 EXCEPT !.op = "RemoveFromFile", !.p = p, !.f = f]
+\* F3: two files in model 1 (file ids: 1 = f1, 2 = g1 of model 2, 3 = f2); packages a (f1 only), b (both), c (both, with content)
+\*  3 AR-PACKAGES, 4 a, 5 SN, 6 b, 7 SN, 8 c, 9 SN, 10 ELEMENTS (in c), 11 SYSTEM-SIGNAL s, 12 SN, 13 ELEMENTS (in a), 14 SYSTEM-SIGNAL t, 15 SN
+F3 == <<CF(1, "f1", "V50"), CF(2, "g1", "V50"),
+        CS(1, "AR-PACKAGES"), CN(3, "AR-PACKAGE", "a"), CN(3, "AR-PACKAGE", "b"), CN(3, "AR-PACKAGE", "c"),
+        CS(8, "ELEMENTS"), CN(10, "SYSTEM-SIGNAL", "s"), CS(4, "ELEMENTS"), CN(13, "SYSTEM-SIGNAL", "t"),
+        CF(1, "f2", "V50"), AF(3, 3), RF(4, 3)>>
 =============================================================================
